@@ -32,6 +32,10 @@ func (a action) String() string {
 		return fmt.Sprintf("travel:%d", a.Arg)
 	case "close", "wrong":
 		return a.Op
+	case "ack":
+		if a.P != "" && a.P != "-" {
+			return fmt.Sprintf("ack:%d:%s", a.I, a.P)
+		}
 	}
 	return fmt.Sprintf("%s:%d", a.Op, a.I)
 }
@@ -48,6 +52,8 @@ type budget struct {
 	Travel   int
 	TravelMs []int // durations offered
 	SendFail int
+	// AckShapes: batch layouts offered for every ack (nil: the single-id batch).
+	AckShapes []string
 	// CancelEarly allows cancelling a context before its Do was started.
 	CancelEarly bool
 	// LateRes allows result notifications after the call returned.
@@ -130,7 +136,12 @@ func (r *runner) enabled() []action {
 		ret := r.returned(i)
 		if !ret {
 			if b.Ack[i] > 0 {
-				out = append(out, action{Op: "ack", I: i})
+				if len(b.AckShapes) == 0 {
+					out = append(out, action{Op: "ack", I: i, P: "-"})
+				}
+				for _, sh := range b.AckShapes {
+					out = append(out, action{Op: "ack", I: i, P: sh})
+				}
 			}
 			if b.Err[i] > 0 {
 				out = append(out, action{Op: "err", I: i})
@@ -181,7 +192,7 @@ func (r *runner) exec(a action) {
 		w.start(a.I)
 	case "ack":
 		b.Ack[a.I]--
-		w.ack(a.I)
+		w.ackBatch(a.I, a.P)
 	case "res":
 		b.Res[a.I]--
 		w.notifyResult(a.I, w.calls[a.I].cfg.MsgID, a.I)
@@ -192,8 +203,11 @@ func (r *runner) exec(a action) {
 		b.Wrong--
 		w.notifyResult(-1, wrongMsgID, -7)
 		w.notifyError(-1, wrongMsgID+1)
-		w.ev("ack.call", -1, 0, "unknown id")
+		w.ev("ack.call", -1, 0, "unknown ids, empty and nil batches")
 		w.eng.NotifyAcks([]int64{wrongMsgID + 2})
+		w.eng.NotifyAcks(nil)
+		w.eng.NotifyAcks([]int64{})
+		w.eng.NotifyAcks([]int64{wrongMsgID + 3, wrongMsgID + 4, wrongMsgID + 3})
 	case "cancel":
 		b.Cancel[a.I]--
 		w.cancelCall(a.I)
@@ -498,13 +512,18 @@ func runFree(family string, index int, cfg worldCfg, rng *rand.Rand, pr probes) 
 		op string
 		i  int
 		ms int
+		sh string
 	}
 	plans := make([][]step, n+1)
 	for i := 0; i < n; i++ {
 		ops := []string{"ack", "res", "res", "err", "cancel", "yield", "yield"}
 		rng.Shuffle(len(ops), func(a, b int) { ops[a], ops[b] = ops[b], ops[a] })
 		for _, o := range ops[:2+rng.IntN(len(ops)-2)] {
-			plans[i] = append(plans[i], step{op: o, i: i})
+			st := step{op: o, i: i}
+			if o == "ack" {
+				st.sh = ackShapes[rng.IntN(len(ackShapes))]
+			}
+			plans[i] = append(plans[i], st)
 		}
 	}
 	for k := rng.IntN(5); k > 0; k-- {
@@ -530,11 +549,11 @@ func runFree(family string, index int, cfg worldCfg, rng *rand.Rand, pr probes) 
 			for _, s := range p {
 				j.yield()
 				mu.Lock()
-				r.acts = append(r.acts, fmt.Sprintf("%s:%d", s.op, s.i))
+				r.acts = append(r.acts, fmt.Sprintf("%s:%d%s", s.op, s.i, s.sh))
 				mu.Unlock()
 				switch s.op {
 				case "ack":
-					w.ack(s.i)
+					w.ackBatch(s.i, s.sh)
 				case "res":
 					w.notifyResult(s.i, w.calls[s.i].cfg.MsgID, s.i)
 				case "err":
